@@ -638,7 +638,8 @@ class FixedKeyDictNode(MappingNode, SequenceNode[Dict[LeafNode, KeyValuePairNode
             return Replace(self, node)
 
     def items(self) -> Iterator[Tuple[LeafNode, TreeNode]]:
-        yield from iter(self._children.items())
+        for kvp in self._children.values():
+            yield kvp.key, kvp.value
 
     def editable_dict(self) -> Dict[str, Any]:
         ret = dict(self.__dict__)
